@@ -417,11 +417,20 @@ pub struct Ref<'a> {
     pushes: Vec<u32>,
     callees: Vec<FnId>,
     occ: BTreeMap<(usize, u32), u32>,
+    /// log of every struct creation (creator node, identity value, occurrence)
+    pub created: Vec<(usize, u32, u32)>,
 }
 
 impl<'a> Ref<'a> {
     pub fn new(env: Env<'a>) -> Self {
-        Ref { env, pushes: vec![], callees: vec![], occ: BTreeMap::new() }
+        Ref { env, pushes: vec![], callees: vec![], occ: BTreeMap::new(), created: vec![] }
+    }
+
+    /// identities (identity value, occurrence) of the structs a from-scratch run of node q creates
+    pub fn created_by(&mut self, q: usize) -> Vec<(u32, u32)> {
+        self.created.clear();
+        self.run_fn(&FnId::Node(q));
+        self.created.iter().filter(|c| c.0 == q).map(|c| (c.1, c.2)).collect()
     }
 
     /// value of node q (acyclic programs only)
@@ -535,6 +544,7 @@ impl<'a> Ref<'a> {
                 let occ = self.occ.entry((creator, kk)).or_insert(0);
                 let o = *occ;
                 *occ += 1;
+                self.created.push((creator, kk, o));
                 RV { n: vv, ts: Some(RTs { creator, k: kk, occ: o, v: vv, spec: if ff % 2 == 1 { Some(ss) } else { None } }), sym: None }
             }
             E::TsV(a) => {
@@ -564,7 +574,7 @@ impl<'a> Ref<'a> {
             }
             E::Intern(a) => {
                 let h = self.eval(a, ctx);
-                RV { n: h.n, ts: None, sym: Some(h.n % 8) }
+                RV { n: h.n, ts: None, sym: Some((h.n + 4 * self.env.inputs[0]) % 16) }
             }
             E::SymF(a) => {
                 let h = self.eval(a, ctx);
